@@ -360,6 +360,56 @@ slab_d (int m)
     }
 }
 
+/* (f) salts of every length each method accepts (and a little beyond): a change of one salt character at any position, or
+   a cost step, must change the hash part unless the echoed setting shows that the character was dropped */
+static const struct { int m; const char *head, *head2; int maxlen, yenc; } fheads[] = {
+  { M_MD5, "$1$", 0, 10, 0 }, { M_SHA256, "$5$rounds=1000$", "$5$rounds=1001$", 18, 0 }, { M_SHA512, "$6$rounds=1000$", "$6$rounds=1001$", 18, 0 },
+  { M_SHA1, "$sha1$20$", "$sha1$21$", 340, 0 }, { M_SHA1, "$sha1$0$", "$sha1$1$", 340, 0 }, { M_SUNMD5, "$md5$", "$md5,rounds=1$", 48, 0 },
+  { M_SCRYPT, "$7$2/..../....", "$7$3/..../....", 300, 0 }, { M_YESCRYPT, "$y$j/.$", "$y$j0.$", 86, 1 }, { M_GOST, "$gy$j/.$", "$gy$j0.$", 86, 1 },
+};
+#define NFHEADS ((int) (sizeof fheads / sizeof *fheads))
+
+static void
+slab_f (int hi, int L)
+{
+  int m = fheads[hi].m;
+  char S1[VH_SETMAX], S2[VH_SETMAX], rp[48];
+  size_t hl = strlen (fheads[hi].head);
+  if (fheads[hi].yenc && L % 4 == 1)
+    return;
+  snprintf (rp, sizeof rp, "f:%d:%d", hi, L);
+  memcpy (S1, fheads[hi].head, hl);
+  vh_salt (S1 + hl, L, A64, L + 3);
+  if (fheads[hi].yenc && L % 4 == 2)
+    S1[hl + (size_t) L - 1] = A64[(strchr (A64, S1[hl + (size_t) L - 1]) - A64) & 3];
+  if (fheads[hi].yenc && L % 4 == 3)
+    S1[hl + (size_t) L - 1] = A64[(strchr (A64, S1[hl + (size_t) L - 1]) - A64) & 15];
+  S1[hl + (size_t) L] = 0;
+  for (int pos = 0; pos < L; pos++)
+    {
+      static const int edge[] = { 63, 64, 65, 89, 90, 91, 127, 128, 129, 255, 256, 257 };
+      int sel = vh_thorough || L <= 24 || pos < 2 || pos >= L - 2 || pos == L / 2;
+      for (unsigned e = 0; e < sizeof edge / sizeof *edge; e++)
+        sel |= pos == edge[e];
+      if (!sel)
+        continue;
+      strcpy (S2, S1);
+      int ix = (int) (strchr (A64, S2[hl + (size_t) pos]) - A64);
+      int mod = 64;
+      if (fheads[hi].yenc && pos == L - 1 && L % 4 == 2)
+        mod = 4;
+      if (fheads[hi].yenc && pos == L - 1 && L % 4 == 3)
+        mod = 16;
+      S2[hl + (size_t) pos] = A64[(ix + 1) % mod];
+      compare_settings (m, "pw", S1, S2, "salt-character-of-a-long-salt", pos, rp);
+    }
+  if (fheads[hi].head2)
+    {
+      snprintf (S2, sizeof S2, "%s%s", fheads[hi].head2, S1 + hl);
+      compare_settings (m, "pw", S1, S2, "cost-step-with-a-long-salt", -1, rp);
+    }
+}
+
 int
 main (int argc, char **argv)
 {
@@ -376,6 +426,8 @@ main (int argc, char **argv)
         slab_b (a, b);
       else if (sscanf (vh_replay, "e:%d:%d", &a, &b) == 2)
         slab_e (a, b);
+      else if (sscanf (vh_replay, "f:%d:%d", &a, &b) == 2)
+        slab_f (a, b);
       else if (sscanf (vh_replay, "c:%d", &a) == 1)
         slab_c (a);
       else if (sscanf (vh_replay, "d:%d", &a) == 1)
@@ -392,6 +444,10 @@ main (int argc, char **argv)
   for (int m = 0; m < M_COUNT; m++)
     if (vh_mine (idx++))
       slab_c (m);
+  for (int hi = 0; hi < NFHEADS; hi++)
+    for (int L = 1; L <= fheads[hi].maxlen; L++)
+      if (vh_mine (idx++))
+        slab_f (hi, L);
   for (int m = 0; m < M_COUNT && !vh_expired (); m++)
     {
       int expensive = m == M_SUNMD5;
